@@ -283,6 +283,8 @@ find_step(struct step_context *c, const char *step_name, struct arena_scope *s)
 
 	flags = (c->flags & STEP_EXEC_TRACE) ? CONFIG_STEPS_TRACE_COMMAND : 0;
 	steps = config_get_steps(c->config, flags, s);
+	if (steps == NULL)
+		return NULL;
 	for (i = 0; i < VECTOR_LENGTH(steps); i++) {
 		const struct config_step *cs = &steps[i];
 
